@@ -245,6 +245,95 @@ def finite_view_slice(a0: int, a1: int, j: int, n: int) -> bool:
     return _once(log)
 
 
+def _c(x, lo, hi):
+    """Realise a symbolic integer of a small box (one path per value): index expressions that nest symbolic integers in lists
+    next to concrete ones are not modelled by numpy's C index parser under symbolic execution."""
+    for v in range(lo, hi + 1):
+        if x == v:
+            return v
+    raise AssertionError("outside the precondition box")
+
+
+def three_finite_dims_int(i: int, j: int) -> bool:
+    """
+    pre: -3 <= i <= 2 and -4 <= j <= 3
+    post: _
+    """
+    return _check((2, 3, 2), 1, (i, j, 1, 1))
+
+
+def three_finite_dims_int_last(k: int, n: int) -> bool:
+    """
+    pre: -3 <= k <= 2 and -1 <= n <= 2
+    post: _
+    """
+    return _check((2, 3, 2), 1, (1, 2, k, n))
+
+
+def three_finite_dims_mixed(form: int, a: int, b: int, n: int) -> bool:
+    """
+    pre: 0 <= form <= 6 and -2 <= a <= 1 and -1 <= b <= 2 and 0 <= n <= 2
+    post: _
+    """
+    # lists, slices and integers mixed over three finite dimensions (numpy moves separated advanced indices to the front)
+    form, a, b, n = _c(form, 0, 6), _c(a, -2, 1), _c(b, -1, 2), _c(n, 0, 2)
+    items = [
+        (slice(None), [a, b], slice(None), n),
+        ([a], slice(None), [b % 2], n),
+        (a, slice(None), [0, 1], n),
+        (slice(None), b, slice(None), slice(None, n + 1)),
+        ([0, 1], [a, b], slice(None), n),
+        (slice(None), [b], slice(None), [n, 0]),
+        (slice(a, None), [b, 0], b % 2, slice(0, n + 1, 2)),
+    ]
+    return _check((2, 3, 2), 1, items[form])
+
+
+def three_finite_dims_view(form: int, a: int, b: int, n: int) -> bool:
+    """
+    pre: 0 <= form <= 5 and -2 <= a <= 1 and -2 <= b <= 1 and 0 <= n <= 2
+    post: _
+    """
+    # finite-dimension-only index expressions with a list: the view has the numpy shape AND the numpy element layout
+    form, a, b, n = _c(form, 0, 5), _c(a, -2, 1), _c(b, -2, 1), _c(n, 0, 2)
+    items = [
+        (slice(None), [a, b], slice(None)),
+        ([a, b], slice(None), slice(None)),
+        (slice(None), slice(None), [a, b]),
+        ([a], slice(None), [b]),
+        (a, [b, 0], slice(None)),
+        (slice(None), [a, b, 0], slice(1, None)),
+    ]
+    item = items[form]
+    log = []
+    shape = (2, 3, 2)
+    s = _mk(shape, 1, log)
+    exp = _dense(shape, 1)[item]
+    view = s[item]
+    if not isinstance(view, BlockSeries) or tuple(view.shape) != tuple(exp.shape[:-1]) or view.n_infinite != 1:
+        return False
+    for idx in np.ndindex(*exp.shape[:-1]):
+        if not _same(view[idx + (n,)], exp[idx + (n,)]):
+            return False
+    return _once(log)
+
+
+def empty_list_request(where: int, i: int, n: int) -> bool:
+    """
+    pre: 0 <= where <= 2 and -2 <= i <= 1 and 0 <= n <= 2
+    post: _
+    """
+    # an empty list is a legal numpy index: the result is an empty array and nothing is evaluated
+    where, i, n = _c(where, 0, 2), _c(i, -2, 1), _c(n, 0, 2)
+    items = [(i, 0, []), ([], i, n), ([i], [], n)]
+    item = items[where]
+    log = []
+    s = _mk((2, 2), 1, log)
+    exp = _dense((2, 2), 1)[item]
+    r = s[item]
+    return isinstance(r, np.ma.MaskedArray) and r.shape == exp.shape and r.size == 0 and log == []
+
+
 def dependent_elements_in_one_request(n: int, use_list: int) -> bool:
     """
     pre: 0 <= n <= 3 and 0 <= use_list <= 1
